@@ -45,7 +45,7 @@ def _mk(mode, nr, nw, depth, width, gran, K=0):
 def configs(tier, seed):
     out = []
     if tier == "quick":
-        shapes = [(1, 1, 4, 2, None), (1, 1, 4, 2, 1), (2, 2, 4, 2, None), (2, 2, 4, 2, 1), (1, 2, 3, 2, None), (2, 1, 4, 4, 2)]
+        shapes = [(1, 1, 4, 2, None), (1, 1, 4, 2, 1), (2, 2, 4, 2, None), (2, 2, 4, 2, 1), (1, 2, 3, 2, None), (2, 1, 4, 4, 2), (1, 1, 4, 3, 1), (1, 1, 4, 4, 1)]
         K = 5
     else:
         shapes = []
@@ -130,6 +130,13 @@ def run(cfg, ctx):
     ctx.functions = b.functions
     d, w = cfg["depth"], cfg["width"]
     tag = f"AsyncMemoryBank {cfg['nr']}r{cfg['nw']}w depth {d} width {w} gran {cfg['gran']}"
+    if cfg["gran"] is not None:
+        # interface: one write-enable bit per granule (otherwise some granule can never be written)
+        mw = b.h.ad["wr0"].data_in.shape()["mask"].width
+        if mw != w // cfg["gran"]:
+            ctx.violation(f"{tag}: write mask has {mw} bit(s) for {w // cfg['gran']} granules", dict(mask_width=mw, granules=w // cfg["gran"]),
+                          "read from the elaborated method layout")
+            return
     if cfg["mode"] == "bmc":
         bmc(ctx, f"{tag} vs ideal array", b, cfg["K"], _step(cfg), lambda h: [z3.BitVecVal(0, w)] * d, cosim_k=10 if ctx.index < 3 else 0)
         return
